@@ -54,7 +54,7 @@ impl Check for C02 {
         "external-equivalence"
     }
     fn cases(&self, tier: Tier) -> usize {
-        tier.pick(6_000, 150_000)
+        tier.pick(50_000, 1_000_000)
     }
     fn strategy(&self, _tier: Tier) -> BoxedStrategy<Case> {
         (gt::choices(170), gt::choices(60))
@@ -187,7 +187,7 @@ impl Check for C19 {
         "flag-invariance"
     }
     fn cases(&self, tier: Tier) -> usize {
-        tier.pick(2_500, 60_000)
+        tier.pick(3_000, 80_000)
     }
     fn strategy(&self, _tier: Tier) -> BoxedStrategy<FlagCase> {
         let c = c01::cfg();
